@@ -620,7 +620,8 @@ func runWire(rng *vh.RNG) {
 			return r.Bytes(n)
 		}
 	}
-	txCounts := []uint32{0, 1, 2, 3, 4, 5, 7, 8, 9, 255, 256, 257, 65535, 65536, 1 << 20, maxTxn - 1, maxTxn, maxTxn + 1, 1 << 31, 0xfffffffe, 0xffffffff}
+	// counts above 2^22 are probed in the memory-capped child process (merkleProbes), not here
+	txCounts := []uint32{0, 1, 2, 3, 4, 5, 7, 8, 9, 255, 256, 257, 65535, 65536, 1 << 20, maxTxn - 1, maxTxn, maxTxn + 1, 1 << 22}
 	for _, nt := range txCounts {
 		for _, nh := range []int{0, 1, 2, 3, 8, 50, 300} {
 			for _, nf := range []int{0, 1, 2, 7, 40, 400} {
@@ -662,7 +663,7 @@ func runWire(rng *vh.RNG) {
 			case 0:
 				m.Flags = mutate(r, m.Flags)
 			case 1:
-				m.Transactions = vh.Pick(r, []uint32{0, m.Transactions + 1, m.Transactions - 1, m.Transactions * 2, maxTxn, maxTxn + 1, 0xffffffff})
+				m.Transactions = vh.Pick(r, []uint32{0, m.Transactions + 1, m.Transactions - 1, m.Transactions * 2, maxTxn, maxTxn + 1, 1 << 22})
 			case 2:
 				if len(m.Hashes) > 0 {
 					p := r.Intn(len(m.Hashes))
@@ -691,7 +692,7 @@ func runWire(rng *vh.RNG) {
 		callMerkle("mutation", m)
 	}
 	for i := 0; i < cfg.Scale(200, 3000); i++ {
-		msg := &wire.MsgMerkleBlock{Transactions: vh.Pick(r, []uint32{r.U32(), uint32(r.Intn(40)), uint32(r.Intn(int(maxTxn)))}), Hashes: mkHashes(r.Intn(20), 0), Flags: r.Bytes(r.Intn(12))}
+		msg := &wire.MsgMerkleBlock{Transactions: vh.Pick(r, []uint32{r.U32() >> 10, uint32(r.Intn(40)), uint32(r.Intn(int(maxTxn)))}), Hashes: mkHashes(r.Intn(20), 0), Flags: r.Bytes(r.Intn(12))}
 		callMerkle("random", msg)
 	}
 
